@@ -59,6 +59,9 @@ CURATED = [
     # variable-size bit regions (streaming implementation) written in pieces smaller than a byte
     ("raw", "Bitwise(Struct('n'/BitsInteger(3), 'f'/Flag, 'r'/Array(this.n & 1, Nibble), 't'/Nibble))"), ("raw", "Bitwise(Struct('a'/BitsInteger(2), 'b'/BitsInteger(1), 'c'/If(this.a, BitsInteger(8)), 'd'/BitsInteger(5)))"),
     ("raw", "Bitwise(Struct('k'/BitsInteger(1), 'x'/BitsInteger(2), 'v'/Switch(this.k, {0: BitsInteger(5), 1: BitsInteger(13)})))"), ("raw", "Bitwise(Array(3, Struct('a'/BitsInteger(3), 'b'/Flag, 'c'/If(this.b, BitsInteger(4)))))"),
+    # transforms and aligned members inside fixed-size transformed regions
+    ("raw", "ProcessRotateLeft(8, 4, Bytes(4))"), ("raw", "ProcessRotateLeft(16, 3, Bytes(3))"), ("raw", "ProcessRotateLeft(3, 2, Bytes(2))"), ("raw", "ProcessRotateLeft(24, 4, GreedyBytes)"),
+    ("raw", "ByteSwapped(Aligned(2, Int16ub))"), ("raw", "Bitwise(Aligned(8, Octet))"), ("raw", "BitsSwapped(Struct('a'/Aligned(2, Bytes(2)), 'b'/Byte))"), ("raw", "ByteSwapped(Struct('a'/Aligned(4, Pass), 'b'/Int16ub))"),
     # members cut short by StopIf: the parsed value is shorter than the member list and must still build
     ("raw", "Sequence('a'/Byte, StopIf(this.a == 0), 'b'/Byte)"), ("raw", "Struct('a'/Byte, StopIf(this.a == 0), 'b'/Byte)"), ("raw", "Sequence(StopIf(True), Byte)"),
     ("raw", "Struct('s'/Sequence('a'/Byte, StopIf(this.a & 1), 'b'/Int16ub), 't'/Byte)"), ("raw", "GreedyRange(Sequence('a'/Byte, StopIf(this.a == 0), 'b'/Byte))"),
